@@ -79,11 +79,34 @@ def case_kernel(case):
     vs = []
     if r["conflicts"]:
         vs.append(V("parallel-iterations-conflict", kernel=kernel, shape=list(shape), conflicts=r["conflicts"]))
-    # bind the analysed source to the compiled code
-    args = kernel_inputs(kernel, shape)
-    getattr(mod, name)(*args)
+    if vs:
+        return core.ok(key=[kernel, list(shape)], outcome=[kernel, r["regions"], True, len(r["conflicts"])], violations=vs,
+                       states=1, transitions=max(1, r["parallel_iterations"]), traces=0)  # fmt: skip
+    # bind the analysed source to the compiled code (in a forked child: a nested parallel region can abort the process)
+    def compiled(_):
+        a = kernel_inputs(kernel, shape)
+        getattr(mod, name)(*a)
+        return a[0]
+
+    status, comp = core.run_forked(compiled, None, 120)
+    if status == "died":
+        # numba's workqueue layer (used by the harness because it is fork-safe) aborts on nested parallel regions, which
+        # the default layer supports: repeat in a fresh process with numba's default threading layer before judging
+        env = dict(os.environ)
+        env.pop("NUMBA_THREADING_LAYER", None)
+        code = ("import sys, json; sys.path.insert(0, %r); from vf.checks import c10_kernels as k; "
+                "m, n, _ = k.kernel_ref(%r); a = k.kernel_inputs(%r, %r); getattr(m, n)(*a); print('OUT ' + json.dumps(a[0].tolist()))"
+                % (str(core.ROOT), kernel, kernel, tuple(shape)))
+        p = subprocess.run([sys.executable, "-c", code], env=env, capture_output=True, text=True, timeout=300)
+        line = [l for l in p.stdout.splitlines() if l.startswith("OUT ")]
+        if line:
+            status, comp = "ok", np.array(json.loads(line[0][4:]))
+        else:
+            comp = (p.stderr or "")[-300:]
+    if status != "ok":
+        vs.append(V("compiled-kernel-did-not-return", kernel=kernel, shape=list(shape), status=status, info=str(comp)[:300]))
+        return core.ok(key=[kernel, list(shape)], outcome=[kernel, "compiled-" + status], violations=vs, states=1, transitions=1, traces=0)
     py = r["outputs"][0]
-    comp = args[0]
     scale = max(1.0, float(np.abs(comp).max())) if comp.size else 1.0
     if not np.all(np.isfinite(comp)) or np.abs(py - comp).max() > 64 * np.finfo(float).eps * scale:
         vs.append(V("py_func-and-compiled-kernel-disagree", kernel=kernel, shape=list(shape),
